@@ -519,7 +519,7 @@ def judge_operands(p, ai, ios, values_of=None):
                     p.count("unclassified")
                     p.collect("unclassified_slots", name + " (weak: other bits change)")
                     continue
-                if v == r or v == r - (1 << model.n):
+                if v == r or (r >= (1 << (model.n - 1)) and v == r - (1 << model.n)):
                     p.count("accepted_representable_weak")
                     p.outcome((fam, io.ci.cid, io.name, "weak-ok", size_class(v)))
                     continue
@@ -550,7 +550,7 @@ def judge_operands(p, ai, ios, values_of=None):
                     m = models[id(rec)]
                     if m.ok:
                         r = m.read(b)
-                        if r is not None and v == r - (1 << m.n):
+                        if r is not None and r >= (1 << (m.n - 1)) and v == r - (1 << m.n):
                             excused = "accepted_negative_legal_per_reference_assembler"
             if excused:
                 p.count(excused)
@@ -650,11 +650,12 @@ def link_case(ai, inst, off, base, target, two_labels=False):
     from ppci.binutils.outstream import BinaryOutputStream
     from ppci.binutils.layout import Layout, Memory, Section
     from ppci.binutils.linker import link
-    from ppci.arch.generic_instructions import Label
+    from ppci.arch.generic_instructions import Label, Global
     arch = ai.arch
     obj = ObjectFile(arch)
     st = BinaryOutputStream(obj)
     st.select_section("code")
+    st.emit(Global(LABEL))
     sec = st.current_section
     extra = None
     size = len(inst.encode())
@@ -683,8 +684,11 @@ def link_case(ai, inst, off, base, target, two_labels=False):
     layout.add_memory(mem)
     del EVENTS[:]
     out = link([obj], layout=layout, extra_symbols=extra)
-    data = out.get_section("code").data
-    return bytes(data[off:off + size]), list(EVENTS)
+    ev = list(EVENTS)
+    sec2 = out.get_section("code")
+    data = sec2.data
+    tval = out.get_symbol_id_value(out.get_symbol(LABEL).id)
+    return bytes(data[off:off + size]), ev, sec2.address + off, tval
 
 
 def reloc_values():
@@ -702,10 +706,10 @@ def reloc_values():
 def classify_reloc(ai, inst):
     """'pcrel' | 'abs' | None, decided by behaviour: which of (site, target) moves change the linked bytes."""
     try:
-        b1 = link_case(ai, inst, 0, 0x1000, 0x2000)[0]
-        b2 = link_case(ai, inst, 0, 0x3000, 0x4000)[0]
-        b3 = link_case(ai, inst, 0, 0x3000, 0x2000)[0]
-        b4 = link_case(ai, inst, 0, 0x1000, 0x2010)[0]
+        b1 = link_case(ai, inst, 0, 0x1000, 0x1040)[0]
+        b2 = link_case(ai, inst, 0, 0x3000, 0x3040)[0]
+        b3 = link_case(ai, inst, 0x20, 0x1000, 0x1040)[0]
+        b4 = link_case(ai, inst, 0, 0x1000, 0x1050)[0]
     except Exception:  # noqa
         return None
     if b4 == b1:
@@ -740,19 +744,19 @@ def judge_reloc(p, ai, rname, inst, tier, only=None):
     """All cases of one relocation type.  only=(x, off, two_labels) restricts to one case (replay)."""
     install_tracer()
     flags = LLVM.get(ai.name)
+    if inst.cls.__module__ == "ppci.arch.data_instructions":
+        flags = None     # data directives are not instructions: own-field read-back only
     kind = classify_reloc(ai, inst)
     name = "%s:%s" % (ai.name, rname)
     if kind is None:
         p.collect("unclassified_relocations", name + " (neither pc-relative nor absolute by behaviour)")
         return
-    reloc_off = None
-    robj = None
-
     size = len(inst.encode())
     wide = ai.name.startswith("x86_64")
 
     def run(x, off, two=False):
-        """x: symbol address (abs) or distance symbol - site (pcrel).  -> (status, bytes|exception name, events)"""
+        """x: symbol address (abs) or distance symbol - site (pcrel), as requested.
+        -> (status, bytes | exception name, events, actual x after linking)"""
         if two:
             base = 0x1000
             if kind == "abs":
@@ -762,7 +766,7 @@ def judge_reloc(p, ai, rname, inst, tier, only=None):
                 target = base + site_off + x
             toff = target - base
             if toff < 0 or site_off < toff < site_off + size or toff > 0x8000:
-                return "skip", None, None
+                return "skip", None, None, None, None
         else:
             if kind == "abs":
                 base, site_off, target = 0x1000, off, x
@@ -771,45 +775,23 @@ def judge_reloc(p, ai, rname, inst, tier, only=None):
                 site_off = off
                 target = base + off + x
             if target < 0 or (not wide and (target >= (1 << 32) or base + 0x1000 >= (1 << 32))):
-                return "skip", None, None
+                return "skip", None, None, None, None
         try:
-            b, ev = link_case(ai, inst, site_off, base, target, two)
+            b, ev, site, tval = link_case(ai, inst, site_off, base, target, two)
         except Exception as e:  # noqa
-            return "rejected", type(e).__name__, None
-        return "ok", b, ev
+            return "rejected", type(e).__name__, None, None, None
+        # relaxation may have shrunk the instruction and moved a label that follows it: judge the final distance
+        return "ok", b, ev, (tval if kind == "abs" else tval - site), tval
 
-    # calibration on small aligned positive values
+    offs = [0, 2] if tier == "quick" else [0, 2, 1, 4]
+    cases = []
     if kind == "abs":
         calx = [0x1010, 0x1020, 0x1030, 0x1040, 0x1080]
     else:
         calx = [16, 32, 48, 64, 96]
-    cal_b = []
-    for x in calx:
-        st, b, _ = run(x, 0)
-        if st == "ok":
-            cal_b.append((x, b))
-    cal = None
-    if flags and len(cal_b) >= 3:
-        texts = llvm_disasm(flags, [b for _, b in cal_b])
-        cal = Calib([(x, t) for (x, _), t in zip(cal_b, texts)])
-    # weak: affine map of the relocation's own field
-    wa = wb = wn = None
-    fr = [(x, field_read(ai, rname, _site_bytes(ai, rname, inst, b))) for x, b in cal_b]
-    if len(fr) >= 3 and all(r is not None for _, r in fr):
-        (x1, (r1, n1)), (x2, (r2, _)) = fr[0], fr[1]
-        a = Fraction(r2 - r1, x2 - x1)
-        b0 = r1 - a * x1
-        if a != 0 and all(a * x + b0 == r for x, (r, _) in fr):
-            wa, wb, wn = a, b0, n1
-    if (cal is None or not cal.ok) and wa is None:
-        p.collect("unclassified_relocations", name + " (reference: %s; own field: not affine)" % (cal.why if cal is not None else "no decoder"))
-        return
-    p.count("relocations")
-    offs = [0, 2] if tier == "quick" else [0, 2, 1, 4]
-    cases = []
-    if only is not None:
-        cases = [only]
-    else:
+    if only is not None and only[1] not in offs:
+        offs.append(only[1])
+    if True:
         for off in offs:
             for x in reloc_values():
                 if kind == "abs" and x < 0:
@@ -821,46 +803,96 @@ def judge_reloc(p, ai, rname, inst, tier, only=None):
             else:
                 cases.append((d, 0, True))
                 cases.append((-d, 0, True))
+    # calibration points first (they are judged like every other case, and anchor the affine maps)
+    allc = [(x, 0, False, True) for x in calx] + [(x, off, two, False) for x, off, two in cases]
     results = []
     blobs = []
-    for x, off, two in cases:
-        st, b, ev = run(x, off, two)
-        results.append([x, off, two, st, b, ev, None])
-        if st == "ok" and cal is not None and cal.ok:
-            results[-1][6] = len(blobs)
+    for xr, off, two, is_cal in allc:
+        st, b, ev, x, tval = run(xr, off, two)
+        rec = {"xr": xr, "off": off, "two": two, "cal": is_cal, "st": st, "b": b, "ev": ev, "x": x, "t": tval, "ti": None,
+               "og": (off % 4 if not two else 0)}
+        if st == "ok" and flags:
+            rec["ti"] = len(blobs)
             blobs.append(b)
+        results.append(rec)
     texts = llvm_disasm(flags, blobs) if blobs else []
-    for x, off, two, st, b, ev, ti in results:
-        if st == "skip":
+    for c in CRASHES:
+        p.collect("reference_decoder_crashes_on", "%s:%s" % (ai.name, c))
+    del CRASHES[:]
+    # reference: one calibration per text shape, anchored on the points of smallest magnitude
+    byskel = {}
+    for rec in results:
+        if rec["ti"] is not None and texts[rec["ti"]]:
+            rec["text"] = texts[rec["ti"]].split(" ; ")[0]
+            rec["grp"] = (_loose(tokens(rec["text"])[1]), rec["og"])
+            byskel.setdefault(rec["grp"], []).append(rec)
+    cals = {}
+    for sk, rs in byskel.items():
+        pts = {}
+        for rec in sorted(rs, key=lambda r: (not r["cal"], abs(r["x"] - (0x1000 if kind == "abs" else 0)), r["x"] < 0)):
+            if rec["t"] % 16 == 0:
+                pts.setdefault(rec["x"], rec["text"])
+            if len(pts) >= 5:
+                break
+        c = Calib(sorted(pts.items()))
+        if c.ok and abs(c.b / c.a) <= 64:
+            cals[sk] = c
+    # weak: affine map of the relocation's own field, one per site alignment, anchored on small positive distances to aligned targets
+    weak = {}
+    for og in sorted({r["og"] for r in results}):
+        cand = [r for r in results if r["og"] == og and r["st"] == "ok" and r["t"] % 16 == 0 and r["x"] > 0]
+        cand.sort(key=lambda r: (not r["cal"], r["x"]))
+        fr = []
+        for r in cand[:6]:
+            f = field_read(ai, rname, _site_bytes(ai, rname, inst, r["b"]))
+            if f is not None:
+                fr.append((r["x"], f))
+        if len({x for x, _ in fr}) >= 3:
+            (x1, (r1, _)), (x2, (r2, _)) = fr[0], [q for q in fr if q[0] != fr[0][0]][0]
+            a = Fraction(r2 - r1, x2 - x1)
+            b0 = r1 - a * x1
+            if a != 0 and all(a * x + b0 == r for x, (r, _) in fr):
+                weak[og] = (a, b0)
+    wa = True if weak else None
+    if not cals and wa is None:
+        p.collect("unclassified_relocations", name + " (reference text not calibratable; own field not affine or custom apply)")
+        return
+    p.count("relocations")
+    pending = []
+    for rec in results:
+        st, b, ev, x, xr, off, two = rec["st"], rec["b"], rec["ev"], rec["x"], rec["xr"], rec["off"], rec["two"]
+        if st == "skip" or rec["cal"]:
+            continue
+        if only is not None and (xr, off, two) != tuple(only):
             continue
         p.add()
         if st == "rejected":
             p.count("rejected")
-            p.outcome((ai.name, rname, "rejected", size_class(x), x % 4))
+            p.outcome((ai.name, rname, "rejected", size_class(xr), xr % 4))
             continue
-        wit = {"kind": "reloc", "arch": ai.name, "reloc": rname, "inst": inst.witness(), "x": str(x), "off": off, "two": two}
+        wit = {"kind": "reloc", "arch": ai.name, "reloc": rname, "inst": inst.witness(), "x": str(xr), "off": off, "two": two}
         done = False
-        if ti is not None:
-            s2, d = cal.read(texts[ti])
-            if s2 == "ok":
-                done = True
-                if d == x:
-                    p.count("accepted_exact_reference")
-                    p.outcome((ai.name, rname, "exact", size_class(x), x % 4))
-                else:
-                    reloc_report(p, ai, rname, kind, x, off, d, ev, b, "llvm-mc decodes %r" % texts[ti], wit, weak=False)
-            else:
-                p.count("reference_" + s2)
+        if "text" in rec:
+            cal = cals.get(rec["grp"])
+            if cal is not None:
+                s2, d = cal.read(rec["text"])
+                if s2 == "ok":
+                    done = True
+                    if d == x:
+                        p.count("accepted_exact_reference")
+                        p.outcome((ai.name, rname, "exact", size_class(x), x % 4))
+                    else:
+                        pending.append((rec, cal, d, wit))
+            if not done:
+                p.count("reference_shape")
         if done:
             continue
-        if wa is None:
-            p.count("unclassified")
-            continue
-        fr1 = field_read(ai, rname, _site_bytes(ai, rname, inst, b))
+        fr1 = field_read(ai, rname, _site_bytes(ai, rname, inst, b)) if rec["og"] in weak else None
         if fr1 is None:
             p.count("unclassified")
             continue
         r, n = fr1
+        wa, wb = weak[rec["og"]]
         e = wa * x + wb
         if e.denominator != 1:
             reloc_report(p, ai, rname, kind, x, off, Fraction(r - wb) / wa, ev, b, "own %d-bit field holds %d" % (n, r), wit, weak=True, unaligned=True)
@@ -871,6 +903,20 @@ def judge_reloc(p, ai, rname, inst, tier, only=None):
             p.outcome((ai.name, rname, "weak-ok", size_class(x), x % 4))
         else:
             reloc_report(p, ai, rname, kind, x, off, Fraction(r - wb) / wa, ev, b, "own %d-bit field holds %d, needed %d" % (n, r, int(e)), wit, weak=True)
+
+
+    # the reference may print a signed field unsigned (m68k displacements): excused only if the reference assembler turns the text
+    # with the true value into the very same bytes
+    if pending:
+        subs = [cal.substitute(rec["text"], rec["x"]) or "" for rec, cal, d, wit in pending]
+        asm = llvm_asm(flags, subs)
+        for (rec, cal, d, wit), a in zip(pending, asm):
+            x = rec["x"]
+            if a is not None and abs(x) < (1 << 63) and rec["b"][:len(a)] == a:
+                p.count("accepted_same_instruction_per_reference_assembler")
+                p.outcome((ai.name, rname, "same-instruction", size_class(x), x % 4))
+                continue
+            reloc_report(p, ai, rname, kind, x, rec["off"], d, rec["ev"], rec["b"], "llvm-mc decodes %r" % rec["text"], wit, weak=False)
 
 
 def _site_bytes(ai, rname, inst, b):
@@ -899,10 +945,10 @@ def reloc_report(p, ai, rname, kind, x, off, d, events, b, seen, wit, weak, unal
         what_kind = "drops-low-bits"
     key = None
     for e in events or ():
-        if e[0] == "wn" and e[2] >= (1 << (e[1] - 1)) and what_kind == "positive-decodes-negative":
+        if e[0] == "wn" and e[2] >= (1 << (e[1] - 1)) and what_kind != "drops-low-bits":
             key = "wrap_negative/accepts-unsigned-range"
     if key is None:
-        key = "reloc/%s/%s" % (rcls.__name__, what_kind)
+        key = "reloc/%s/%s" % (rcls.__name__, what_kind if what_kind == "drops-low-bits" else "wraps")
     if weak:
         p.count("violations_weak_readback")
     p.collect("affected:" + key, "%s:%s" % (ai.name, rname))
@@ -925,6 +971,9 @@ def reloc_worker(p, shard, tier):
 def run(ctx):
     from vf.gen import insgen
     archs = insgen.arch_names()
+    if os.environ.get("VF_ARCHS"):
+        archs = tuple(a for a in archs if a in os.environ["VF_ARCHS"].split(","))
+        ctx.cap("VF_ARCHS=%s restricts the architectures (development aid)" % os.environ["VF_ARCHS"])
     ctx.note("archs", list(archs))
     ctx.note("reference_decoder_archs", sorted(LLVM))
     ctx.note("weak_readback_only_archs", [a for a in archs if a not in LLVM])
